@@ -247,7 +247,22 @@ class CScope(Scope):
                 out += [self.s_alias, self.s_destroy]
         if any(f.get("static") for c in classes for f in c["fields"] if not c.get("static")):
             out.append(self.s_staticset)
+        if getattr(self, "free_funcs", None) and not getattr(self, "in_loop", False):
+            out += [self.s_fcall, self.s_fcall]
         return out
+
+    def s_fcall(self, draw, depth):
+        f = draw(st.sampled_from(self.free_funcs))
+        args = []
+        for pt, _ in f["params"]:
+            if pt in genprog.SCALARS:
+                args.append(lit("int", draw(st.integers(0, 2))) if f["name"] == "scoped" else draw(gen_expr(self, pt, 1, False, True)))
+            else:
+                a = self.obj_arg(draw, pt, allow_null=False)
+                if a["k"] == "null":
+                    return {"k": "echo", "e": lit("int", 3)}
+                args.append(a)
+        return {"k": "echo", "e": {"k": "call", "t": f["ret"], "f": f["name"], "args": args}}
 
     def s_new(self, draw, depth):
         cls = draw(st.sampled_from(class_types(self.prog["classes"])))
@@ -256,7 +271,14 @@ class CScope(Scope):
         e = self.new_expr(draw, cls)
         self.objs.append({"name": name, "t": decl_t, "dyn": cls})
         self.vars.append({"name": name, "t": decl_t, "ro": True, "obj": True})
-        return {"k": "decl", "t": decl_t, "name": name, "init": e}
+        decl = {"k": "decl", "t": decl_t, "name": name, "init": e}
+        if draw(st.booleans()):
+            # observe the freshly constructed object completely: every visible scalar field (construction order, initialiser
+            # and constructor effects become visible whether or not later code happens to read the field)
+            fs = [f for f in visible_fields(self.prog["classes"], decl_t) if f.get("vis", "public") == "public" and f["t"] in genprog.SCALARS]
+            dump = [{"k": "echo", "e": {"k": "fld", "t": f["t"], "obj": {"k": "var", "t": decl_t, "name": name}, "name": f["name"]}} for f in fs]
+            return {"k": "seq", "body": [decl] + dump}
+        return decl
 
     def new_expr(self, draw, cls):
         c = next(x for x in self.prog["classes"] if x["name"] == cls)
@@ -345,7 +367,7 @@ def gen_method_body(draw, prog, funcs, cname, params, ret, label, rank, static_c
     body += draw(gen_block(sc, draw(st.integers(*n)), 1, ret, False, echo))
     # gen_block dropped its locals: the return expression only uses parameters and fields
     if ret != "void":
-        body.append({"k": "ret", "e": draw(gen_expr(sc, ret, 2))})
+        body.append({"k": "ret", "e": draw(gen_expr(sc, "int" if (ret == "long" and draw(st.booleans())) else ret, 2))})
     return body
 
 
@@ -377,6 +399,17 @@ def class_program(draw, max_classes=4, dtors=True, generic=True):
             if static or draw(st.integers(0, 3)) > 0:
                 v = draw(genprog.gen_lit(ft, small=True))
                 init = tr(f"{name}.{fname}=", v) if (ft == "int" and not static and draw(st.booleans())) else v
+                # an initialiser may read an earlier instance field of the same object (own or inherited; its value is fixed
+                # by the documented order base ctor -> own initialisers in declaration order), by bare name or through this
+                earlier = [g for g in visible_fields(prog["classes"], name) if not g.get("static") and g["t"] == ft
+                           and g.get("vis", "public") == "public" and g.get("init") is not None]
+                if not static and earlier and draw(st.integers(0, 2)) == 0:
+                    named = [g for g in earlier if g["name"] != "oid"]
+                    g = draw(st.sampled_from(named if (named and draw(st.integers(0, 3)) > 0) else earlier))
+                    ref = {"k": "var", "t": ft, "name": g["name"], "via_this": draw(st.booleans())}
+                    if ft in ("int", "long", "float") and draw(st.booleans()):
+                        ref = {"k": "bin", "t": ft, "op": draw(st.sampled_from(["+", "-"])), "l": ref, "r": draw(genprog.gen_lit(ft, small=True))}
+                    init = tr(f"{name}.{fname}=", ref) if (ft == "int" and draw(st.booleans())) else ref
             cls["fields"].append({"name": fname, "t": ft, "static": static, "vis": "public", "init": init, "final": False})
         # constructors: every instance field without initialiser is assigned in every constructor
         nct = draw(st.integers(1, 2))
@@ -386,7 +419,14 @@ def class_program(draw, max_classes=4, dtors=True, generic=True):
             params = []
             for _ in range(nparam):
                 pt = draw(st.sampled_from(["int", "int", "long", "string", "float"]))
-                pn = draw(st.sampled_from([n for n in ["a0", "b0", "c0", "s0", "t0"] if n not in [p[1] for p in params]]))
+                # a constructor parameter may carry the name of a field of its class (the `this.x = x` idiom): inside the
+                # constructor the bare name is the parameter, everywhere else (field initialisers!) it is the field
+                shadow = [f["name"] for f in cls["fields"] if not f["static"] and f["name"] != "oid"] if draw(st.integers(0, 2)) == 0 else []
+                bare_read = sorted({n for f in cls["fields"] if not f["static"] and f.get("init") for n in _bare_vars(f["init"])} - {"oid"})
+                if bare_read and draw(st.booleans()):
+                    shadow = bare_read
+                pn = draw(st.sampled_from([n for n in (shadow or ["a0", "b0", "c0", "s0", "t0"]) + ["a0", "b0", "c0", "s0", "t0"]
+                                           if n not in [p[1] for p in params]]))
                 params.append([pt, pn])
             sig = tuple(p[0] for p in params)
             if sig in sigs or any(_confusable(sig, s2) for s2 in sigs):
@@ -479,15 +519,56 @@ def class_program(draw, max_classes=4, dtors=True, generic=True):
         body = draw(gen_block(sc, draw(st.integers(1, 3)), 1, "int", False, True))
         body.append({"k": "ret", "e": draw(gen_expr(sc, "int", 2))})
         prog["funcs"].append({"name": fname, "params": params, "ret": "int", "body": body, "pure": False})
+    # a free function that returns from inside a nested block holding a fresh object: the object's destructor runs while the
+    # return value is pending
+    scoped = None
+    if dtors and draw(st.booleans()):
+        sc = CScope(prog, [], None)
+        sc.extra_weight = 2
+        sc.used |= {"sel"}
+        sc.vars.append({"name": "sel", "t": "int", "ro": True})
+        stmts = []
+        for i in range(draw(st.integers(1, 2))):
+            snap_v, snap_o = list(sc.vars), list(sc.objs)
+            first = sc.s_new(draw, 1)
+            inner = first["body"] if first["k"] == "seq" else [first]
+            if draw(st.booleans()):
+                inner.append(sc.s_callstmt(draw, 1))
+            sc.pure_expr_only = False
+            inner.append({"k": "ret", "e": draw(gen_expr(sc, "int", 2))})
+            sc.vars[:], sc.objs[:] = snap_v, snap_o
+            if i == 0:
+                stmts.append({"k": "if", "c": {"k": "bin", "t": "boolean", "op": "<", "l": {"k": "var", "t": "int", "name": "sel"},
+                                               "r": lit("int", 1)}, "then": inner, "else": None})
+            else:
+                stmts.append({"k": "block", "body": inner})
+        stmts.append({"k": "ret", "e": lit("int", 77)})
+        scoped = {"name": "scoped", "params": [["int", "sel"]], "ret": "int", "body": stmts, "pure": False}
+        prog["funcs"].append(scoped)
     # main
     sc = CScope(prog, [], None)
     sc.extra_weight = 8
     sc.funcs = []
+    sc.free_funcs = [f for f in prog["funcs"]]
     body = draw(gen_block(sc, draw(st.integers(4, 12)), 2, "void", False, True))
     prog["funcs"].append({"name": "main", "params": [], "ret": "void", "body": body, "pure": False})
     for c in prog["classes"]:
         c["uses"] = sorted(_class_uses(c))
     return prog
+
+
+def _bare_vars(e):
+    """Names read by bare identifier inside an expression tree."""
+    out = set()
+    if isinstance(e, dict):
+        if e.get("k") == "var" and not e.get("via_this"):
+            out.add(e["name"])
+        for v in e.values():
+            out |= _bare_vars(v)
+    elif isinstance(e, list):
+        for v in e:
+            out |= _bare_vars(v)
+    return out
 
 
 def _confusable(a, b):
